@@ -70,7 +70,8 @@ TAGS = ["[0]", "[5]", "[APPLICATION 3]", "[UNIVERSAL 2]", "[PRIVATE 9]", "[UNIVE
 COMMENTS = ["/*", "*/", "--", "/* c */", "-- c\n", "/* /* */", "/**/", "*", "/"]
 CONSTRAINTS = ["(0..7)", "(MIN..MAX)", "(0..MAX)", "(SIZE(1..4))", "SIZE(3)", "(SIZE(0..MAX,...))", "(1..2,...)",
                "(WITH COMPONENTS {a PRESENT})", "(WITH COMPONENTS {..., a (0..1) ABSENT})", "{a(1),b(2)}",
-               "(WITH COMPONENTS {a ((1)) })"]
+               "(WITH COMPONENTS {a ((1)) })", "(WITH COMPONENTS {..., a (\":)\") })", "(WITH COMPONENTS {a (\"a(b)\") })",
+               "(WITH COMPONENTS {a (\"ab)\") PRESENT, b (\")(\") })"]
 CHAR_ALPHABET = list(SEPARATORS) + list("-/*- \n\t\r") + list("aZ09_+") + ["\x00", "\x0b", "\x7f", " ", "é"]
 
 
@@ -494,6 +495,11 @@ class FuzzStream(runner.Stream):
             HDR + "A ::= SEQUENCE { ..., ... }\nEND",
             HDR + "A ::= B (WITH COMPONENTS { ..., a ((((1)))) PRESENT, b ABSENT })\nEND",
             HDR + "A ::= B (WITH COMPONENTS { a ())) })\nEND",
+            # quoted strings with parentheses as component value constraints
+            HDR + "A ::= B (WITH COMPONENTS { ..., abc (\":)\") })\nEND",
+            HDR + "A ::= B (WITH COMPONENTS { abc (\"ab)\"), d (\"a(b)\") PRESENT })\nEND",
+            HDR + "A ::= B (WITH COMPONENTS { abc (\")\"), d (\")(\"), e (\"((\") })\nEND",
+            HDR + "A ::= SEQUENCE { x B (WITH COMPONENTS { ..., abc (\"))\") }) OPTIONAL }\nEND",
             "Module DEFINITIONS ::= BEGIN END", "_Module DEFINITIONS ::= BEGIN END",
             "éModule DEFINITIONS ::= BEGIN IMPORTS a FROM 名Module; END",
             "CaféModule DEFINITIONS ::= BEGIN A ::= INTEGER END", "Größe_Module DEFINITIONS ::= BEGIN A ::= INTEGER END",
